@@ -73,6 +73,11 @@ func (e *Engine) analyse(fn *ssa.Function, blk *Block) (rep *FuncReport) {
 	if e.bvFiles[shortFile(e.prog.Fset.Position(fn.Pos()).Filename)] {
 		e.bv = true
 	}
+	if blk != nil {
+		if m := blk.First("mode"); m != nil && len(m.Words) > 0 && m.Words[0] == "int" {
+			e.bv = false // a function of a bit-vector file that does no machine arithmetic worth the cost
+		}
+	}
 	rep = &FuncReport{Name: name}
 	defer func() {
 		if p := recover(); p != nil {
